@@ -101,7 +101,7 @@ type Result struct {
 func parseRec(ctx context.Context, wg *errgroup.Group, resCh chan<- directives.File, file string, ancestors []string) (directives.File, error) {
 	for _, a := range ancestors {
 		if path.Clean(a) == path.Clean(file) {
-			return directives.File{}, fmt.Errorf("include cycle: %s is included from itself (%s)", file, strings.Join(append(ancestors, file), " -> "))
+			return directives.File{}, fmt.Errorf("include cycle: %s is included from itself (%s)", file, strings.Join(append(ancestors[:len(ancestors):len(ancestors)], file), " -> "))
 		}
 	}
 	ancestors = append(ancestors[:len(ancestors):len(ancestors)], file)
